@@ -76,6 +76,10 @@ class Sut:
     def snapshot(self):
         return copy.deepcopy(self)
 
+    def restore_from(self, other):
+        """Become `other` (used after running scratch continuations on self)."""
+        self.__dict__.update(copy.deepcopy(other).__dict__)
+
     def call(self, op):
         """Apply one op to the real builder. Returns (exception or None,
         list of emitted byte chunks)."""
